@@ -39,4 +39,5 @@ r 2566766 C01
 r 54f1cce C03
 r c069836 C06
 r e1d5cd1 C16
+r c6ba349 C01
 echo REVDONE
